@@ -16,7 +16,9 @@ IMPORTS = 'Require Import FV.Gen.C20 FV.C20.Model FV.C20.ConcModel FV.C20.Run.'
 CASE_TYPE = 'case'
 CHECK = 'check_case'
 SHARD_SIZE = 300
-RULE = ('routing: histories of {logging <module|.|""|None|unknown> <level>, emit(module, levelno), *IDN?, disconnect} on 1..3 '
+RULE = ('routing: histories of {logging <module|.|""|None|unknown> <level>, emit(module, levelno), *IDN?, disconnect, '
+        'activate / deactivate [<module>|<module:parameter>|unknown|internal module] (through Dispatcher.handle_request; accepted '
+        'and rejected ones; they must have NO effect on the log subscriptions)} on 1..3 '
         'fake connections and 1..3 real Modules behind a real Dispatcher + RemoteLogHandler; any subset of the modules of a '
         'node is internal (export=False, case key `hidden`), incl. histories that enable an internal module by name and then '
         'send `logging . off`, *IDN? or disconnect; levels: all valid names, '
@@ -45,6 +47,11 @@ ASSUMPTIONS = [
     'so that name order is date order; no entry named `current` is a directory; the file of the day, if it exists, is a '
     'regular file',
     'sequential cases: one request at a time, records are emitted between requests',
+    'activate / deactivate requests: whether the dispatcher accepts them is property C08 (the exception class of such a '
+    'request is recorded but not compared with the model); for C20 they are no-ops: no log message, no change of what a '
+    'connection receives afterwards (oracle: only logging off / *IDN? / disconnect stop delivery); the modules of the '
+    'harness node have no parameters, so an accepted activate sends no update messages; in threads of concurrent cases only '
+    'activation requests that are accepted are used (the model step is: take the dispatcher lock, release it)',
     'internal modules (export=False): the stop clause is unconditional (off for all modules, *IDN?, disconnect leave no '
     'module enabled, internal or not); whether an ENABLING `logging . <level>` includes internal modules is not said by the '
     'property text: the oracle accepts both there (the model follows the code: it does, deviations are correspondence '
@@ -85,10 +92,13 @@ def build_node(case, conn_class=None, handler_hook=None):
     class SecNodeStub:
         def __init__(self):
             self.modules = {}
+            self.export = []          # as frappy.secnode.SecNode: the names of the modules with export != False
             self.name = ''
 
         def add_module(self, module, modname):
             self.modules[modname] = module
+            if module.export:
+                self.export.append(modname)
 
         def get_module(self, modname):
             return self.modules[modname]
@@ -154,6 +164,10 @@ def exec_op(disp, conns, mods, op, idx):
             reply = disp.handle_request(conns[op[1]], ('*IDN?', None, None))
         elif op[0] == 'disc':
             disp.remove_connection(conns[op[1]])
+        elif op[0] in ('act', 'deact'):
+            # ['act' | 'deact', connection, specifier (None: all), optional data (requests with data are rejected)]
+            reply = disp.handle_request(conns[op[1]], ('activate' if op[0] == 'act' else 'deactivate', op[2],
+                                                       op[3] if len(op) > 3 else None))
         elif op[0] == 'emit':
             pyname = logging.getLevelName(op[2]).lower()      # record.levelname.lower(), CPython data for the model
             mods[op[1]].log.log(op[2], 'e%d', idx)
@@ -346,6 +360,10 @@ def enc_op(op, pyname=None):
         return f'(OEmit {gstr(op[1])} {gal.z(op[2])} {gstr(pyname or "")})'
     if op[0] == 'idn':
         return f'(OIdent {gal.nat(op[1])})'
+    if op[0] == 'act':
+        return f'(OActivate {gal.nat(op[1])} {gal.option(op[2], gstr)})'
+    if op[0] == 'deact':
+        return f'(ODeactivate {gal.nat(op[1])} {gal.option(op[2], gstr)})'
     return f'(ODisconnect {gal.nat(op[1])})'
 
 
@@ -552,6 +570,10 @@ def oracle_route(case, obs):
         elif op[0] in ('idn', 'disc'):
             for m in mods:
                 poss.pop((op[1], m), None)
+        elif op[0] in ('act', 'deact'):
+            # event subscriptions: accepted or rejected, such a request is none of `logging ... off`, *IDN?, disconnect --
+            # what the connection (and everybody else) receives stays what it was
+            pass
         elif op[0] == 'emit':
             _, m, lv = op
             for c in range(case['nconn']):
@@ -813,6 +835,15 @@ def outcome_labels(case, obs):
                     got = {(c, m) for c, m in got if c != op[1]}
                 elif op[0] == 'log' and op[2] in (None, '', '.') and s['exc'] is None and any(c == op[1] for c, _ in got):
                     labs.add('request-for-all-modules-by-a-connection-subscribed-to-an-internal-module')
+        acted = {}          # connection -> kinds of activation requests it has sent so far
+        for op, s in zip(case['ops'], obs['steps']):
+            if op[0] in ('act', 'deact'):
+                labs.add('activation-request' + ('-rejected' if s['exc'] else '-accepted'))
+                acted.setdefault(op[1], set()).add(('plain-' if not op[2] else '') + ('activate' if op[0] == 'act' else 'deactivate'))
+            elif op[0] == 'emit':
+                for c, x in enumerate(s['sent']):
+                    for k in acted.get(c, ()) if x else ():
+                        labs.add('delivered-after-' + k)
         for op, s in zip(case['ops'], obs['steps']):
             if s['exc']:
                 labs.add(f'{op[0]}-raised-{s["exc"]}')
@@ -871,13 +902,53 @@ def rand_route(rng):
             ops.append(['log', c, rng.choice(bad_specs if rng.random() < 0.07 else good_specs), rng.choice(LEVEL_POOL)])
         elif r < 0.82:
             ops.append(['emit', rng.choice(mods), rng.choice(EMIT_LEVELS)])
-        elif r < 0.91:
+        elif r < 0.89:
             ops.append(['idn', c])
-        else:
+        elif r < 0.94:
             ops.append(['disc', c])
+        else:
+            ops.append(act_op(rng, c, mods))
     case = {'kind': 'route', 'mods': mods, 'nconn': nconn, 'ops': ops + sweep(mods)}
     if rng.random() < 0.4:
         # internal modules (export=False) next to exported ones: any non-empty subset, sometimes every module
+        case['hidden'] = sorted(rng.sample(mods, rng.randint(1, len(mods))))
+    return case
+
+
+def act_op(rng, c, mods, accepted_only=False):
+    """an activate / deactivate request of connection c: without specifier (None, ''), for a module, and (unless
+    accepted_only) for module:parameter (no such parameter), an unknown module, with data (rejected)"""
+    kind = rng.choice(['act', 'deact', 'deact'])
+    specs = [None, None, '', rng.choice(mods)]
+    if not accepted_only or kind == 'deact':
+        specs += [rng.choice(mods) + ':value', 'nomod', 'nomod:status']
+    op = [kind, c, rng.choice(specs)]
+    if not accepted_only and rng.random() < 0.06:
+        op.append(rng.choice([1, 'x', [0]]))
+    return op
+
+
+def rand_activation(rng):
+    """connections enable logging (by name, all at once; internal modules among them), then send activate / deactivate
+    requests (with and without specifier, accepted and rejected) -- records of every module in between and afterwards (the
+    probe sweep) must keep arriving; sometimes a real stop (logging off, *IDN?, disconnect) of one connection follows"""
+    mods = rng.sample(MOD_POOL, rng.randint(1, 3))
+    nconn = rng.randint(1, 3)
+    ops = []
+    for _ in range(rng.randint(1, 4)):
+        ops.append(['log', rng.randrange(nconn), rng.choice(mods * 2 + ['.', '', None]),
+                    rng.choice(['debug', 'comlog', 'info', 'warning', 'error', 'Info', 10, 30.0])])
+    for _ in range(rng.randint(1, 4)):
+        ops.append(act_op(rng, rng.randrange(nconn), mods))
+        if rng.random() < 0.5:
+            ops.append(['emit', rng.choice(mods), rng.choice(EMIT_LEVELS)])
+    if rng.random() < 0.3:
+        c = rng.randrange(nconn)
+        ops.append(rng.choice([['log', c, '.', 'off'], ['log', c, rng.choice(mods), 'off'], ['idn', c], ['disc', c]]))
+        if rng.random() < 0.5:
+            ops.append(act_op(rng, rng.randrange(nconn), mods))
+    case = {'kind': 'route', 'mods': mods, 'nconn': nconn, 'ops': ops + sweep(mods)}
+    if rng.random() < 0.3:
         case['hidden'] = sorted(rng.sample(mods, rng.randint(1, len(mods))))
     return case
 
@@ -914,7 +985,7 @@ def exhaustive_route(depth, hidden=None):
     mods = ['m0', 'm1']
     alpha = [['log', 0, 'm0', 'debug'], ['log', 0, '.', 'warning'], ['log', 0, 'm0', 'off'], ['log', 0, '', 'off'],
              ['log', 1, 'm0', 'info'], ['log', 1, 'm1', 'comlog'], ['log', 1, '.', 'bad'], ['log', 0, 'm1', 40],
-             ['idn', 0], ['disc', 1], ['emit', 'm0', 20], ['emit', 'm1', 50]]
+             ['idn', 0], ['disc', 1], ['emit', 'm0', 20], ['emit', 'm1', 50], ['deact', 0, None], ['act', 0, '']]
     for ops in itertools.product(alpha, repeat=depth):
         case = {'kind': 'route', 'mods': mods, 'nconn': 2, 'ops': [list(o) for o in ops] + sweep(mods)}
         if hidden:
@@ -1007,12 +1078,19 @@ def rand_conc(rng):
         return ['log', c, spec, rng.choice(CONC_LEVELS)]
 
     pre = [log_op(rng.randrange(nconn)) for _ in range(rng.randint(0, 4))]
+    arng = random.Random(rng.random())        # own stream for the activation requests
+    if arng.random() < 0.15:
+        pre.insert(arng.randint(0, len(pre)), act_op(arng, arng.randrange(nconn), mods))
     threads = []
     for c in rng.sample(range(nconn), rng.randint(2, nconn)):
         ops = []
         for _ in range(rng.randint(1, 3)):
             r = rng.random()
             ops.append(log_op(c) if r < 0.6 else ['idn', c] if r < 0.68 else ['disc', c])
+        if arng.random() < 0.15:
+            # an accepted activate / deactivate of this connection somewhere in its thread (lock taken and released, the
+            # log subscriptions are not touched)
+            ops.insert(arng.randint(0, len(ops)), act_op(arng, c, mods, accepted_only=True))
         threads.append({'conn': c, 'ops': ops})
     for _ in range(rng.choice([0, 0, 1, 1, 2])):
         threads.append({'emit': [[rng.choice(mods), rng.choice(CONC_EMIT)] for _ in range(rng.randint(1, 2))]})
@@ -1076,6 +1154,8 @@ def gen_cases(seed, tier):
     cases += [rand_rot(rng) for _ in range(n_rot)]
     hrng = random.Random(seed * 9176 + 206)          # own stream: the other generators draw what they drew before
     cases += [rand_stop_internal(hrng) for _ in range({'quick': 300}.get(tier, 3000))]
+    arng = random.Random(seed * 5501 + 208)
+    cases += [rand_activation(arng) for _ in range({'quick': 300}.get(tier, 3000))]
     depths = (1, 2) if tier == 'quick' else (1, 2, 3, 4)
     for d in depths:
         cases.extend(exhaustive_route(d))
@@ -1132,7 +1212,8 @@ def shrink(case):
             yield dict(case, nconn=case['nconn'] - 1)
         hid = list(case.get('hidden') or [])
         for m in case['mods'][1:]:
-            if all(not (o[0] == 'emit' and o[1] == m) and not (o[0] == 'log' and o[2] == m) for o in ops):
+            if all(not (o[0] == 'emit' and o[1] == m) and not (o[0] == 'log' and o[2] == m)
+                   and not (o[0] in ('act', 'deact') and isinstance(o[2], str) and o[2].split(':')[0] == m) for o in ops):
                 small = dict(case, mods=[x for x in case['mods'] if x != m])
                 if hid:
                     small['hidden'] = [x for x in hid if x != m]
